@@ -29,4 +29,22 @@ def check(prog, ctx):
     return viol
 
 
-SUBS = [Sub("overrides", check, strategy=strategy, reduce=reduce.candidates, examples={"quick": 8000, "thorough": 300000})]
+def sizes(tier):
+    from ..e1 import wide
+    return wide.specs(["many-contexts"], tier == "quick")
+
+
+def check_sizes(spec, ctx):
+    from ..e1 import wide
+    prog = wide.expand(spec)
+    env = engine.run_program(prog)
+    viol = oracles.lifo(env)
+    r, exp = oracles.reference(prog, env)
+    viol += oracles.compare_with_reference(env, r, exp, "C07.read")
+    viol += oracles.restored(env)
+    ctx.label("wide:" + spec["shape"])
+    ctx.nontrivial(spec)
+    return [(s, "%r: %s" % (spec, m[:600])) for s, m in viol]
+
+SUBS = [Sub("overrides", check, strategy=strategy, reduce=reduce.candidates, examples={"quick": 8000, "thorough": 300000}),
+        Sub("sizes", check_sizes, enumerate=sizes)]
